@@ -317,6 +317,24 @@ func c08Shrink(cfg idxConfig, table map[string]Row, order []string, conds []Cond
 	return cfg, order, conds
 }
 
+// indexSnapshot: every configured index of the row cache, canonically
+func indexSnapshot(cfg idxConfig, rc *cache.RowCache) string {
+	var parts []string
+	for _, sp := range cfg.specs {
+		idx, err := rc.Index(strings.Split(sp.Name, ",")...)
+		if err != nil {
+			parts = append(parts, sp.Name+": "+err.Error())
+			continue
+		}
+		g := map[string][]string{}
+		for k, us := range idx {
+			g[fmt.Sprintf("%v", k)] = append([]string{}, us...)
+		}
+		parts = append(parts, sp.Name+"="+groupsCanon(g, true))
+	}
+	return strings.Join(parts, " ; ")
+}
+
 func runC08(r *Run) {
 	r.Rule = "tables of 0-6 rows over table T (string, integer, optional string/integer, map, set columns) under two random index configurations; lists of 0-4 well-typed conditions over all columns incl. _uuid, values mostly taken from existing rows (sub-maps, permuted/extended sets); non-trivial = condition list that selects a proper non-empty subset of the rows; distinct by (rows, conditions)"
 	n := 400
@@ -355,6 +373,29 @@ func runC08(r *Run) {
 			for k := r.Rng.Intn(5); k > 0; k-- {
 				conds = append(conds, genCond(r, table, order))
 			}
+			// bias: an equality on a column of an index together with the _uuid of a row, or with an equality on
+			// another indexed column taken from another row (two candidate sets that only partly overlap)
+			if len(order) > 0 && len(cfg.specs) > 0 && r.Rng.Intn(4) == 0 {
+				sp := cfg.specs[r.Rng.Intn(len(cfg.specs))]
+				src := table[order[r.Rng.Intn(len(order))]]
+				conds = nil
+				for _, ck := range sp.Cols {
+					if ck.Key == nil {
+						conds = append(conds, CondJ{Col: ck.Col, Fn: "==", Val: cloneValue(src[ck.Col])})
+					}
+				}
+				if r.Rng.Intn(2) == 0 {
+					conds = append(conds, CondJ{Col: "_uuid", Fn: "==", Val: VA(AU(order[r.Rng.Intn(len(order))]))})
+				} else {
+					sp2 := cfg.specs[r.Rng.Intn(len(cfg.specs))]
+					src2 := table[order[r.Rng.Intn(len(order))]]
+					for _, ck := range sp2.Cols {
+						if ck.Key == nil {
+							conds = append(conds, CondJ{Col: ck.Col, Fn: "==", Val: cloneValue(src2[ck.Col])})
+						}
+					}
+				}
+			}
 			// bias: several includes conditions on the map column (index over two keys)
 			if r.Rng.Intn(6) == 0 {
 				conds = append(conds, CondJ{Col: "m", Fn: "includes", Val: VM([2]Atom{AS("k1"), AS([]string{"", "v1", "v2"}[r.Rng.Intn(3)])})},
@@ -382,9 +423,15 @@ func runC08(r *Run) {
 			r.Violation("rowsByCondition", req, "", err.Error(), false, "model driver failed", "")
 			continue
 		}
+		idxBefore := indexSnapshot(cfg, rc)
 		for qi, conds := range queries {
-			cs := map[string]interface{}{"specs": cfg.specs, "rows": rowsJ, "conds": conds}
+			cs := map[string]interface{}{"specs": cfg.specs, "rows": rowsJ, "conds": conds, "earlier_queries": queries[:qi]}
 			got, gerr := queryImpl(db, rc, conds)
+			// selecting rows is a read: the indexes of the cache must be what they were
+			if now := indexSnapshot(cfg, rc); now != idxBefore {
+				r.Violation("rowsByCondition", cs, now, idxBefore, true, fmt.Sprintf("query %d changed the indexes of the cache", qi), "")
+				break
+			}
 			plain, perr := queryImpl(db, rcPlain, conds)
 			// oracle
 			wellTyped, known := true, ""
